@@ -31,11 +31,12 @@ waveform with levels alpha a + beta < alpha b + beta, the absolute bands of the 
 
 Parity-structured sparse patterns (added after seeded wave 5): part `eye-parity` enumerates the family {mostly marks, mostly
 spaces} x {isolated single-slot, two-slot, three-slot exceptions} x {every exception starts on an even slot, on an odd slot,
-alternately} x {as generated, shifted cyclically by one slot} x a few exception counts x {128, 64 slots}.  GET_EYE folds the record
+alternately} x {as generated, shifted cyclically by one slot} x a few exception counts x {128, 64, 256 slots} (minority density 3 %
+... 38 %).  GET_EYE folds the record
 into a 2-slot window, so these legal records show one level in one of the two eye openings only, or put every transition on one
 of the two crossings, or all rising edges on one crossing and all falling edges on the other.  Same oracles (bands on the base
-record, affine image for the five unit changes); the level / spread clause of a symbol is asserted when the eye opening that
-holds fewest slots of it still holds enough of them for the sampling error to be small against the band.
+record, affine image for the five unit changes); the spread clause of a symbol is asserted when the eye opening that holds
+fewest slots of it still holds 24, the level clause is widened by four standard errors of a mean over those slots when they are few.
 
 The waveform is built without the library (own LFSR for the PRBS bits, np.kron, scipy
 Bessel/sosfiltfilt, a private RandomState); only GET_EYE (and gv for sps) is under test.
@@ -203,13 +204,14 @@ PAR_MAJ = ('m', 's')            # mostly marks with exceptional spaces / mostly 
 PAR_LEN = (1, 2, 3)             # isolated single-slot / two-slot / three-slot exceptions
 PAR_PARITY = ('e', 'o', 'x')    # every exception starts on an even slot / on an odd slot / alternately even and odd (mixed)
 PAR_SHIFT = (0, 1)              # the pattern as generated / cyclically shifted by one slot (an exception may then straddle the record edge)
-PAR_SLOTS = (128, 64)
+PAR_SLOTS = (128, 64, 256)   # 256 slots with 8 exceptions: the sparsest members (minority density 3 % ... 9 %)
 
 
 def par_counts(length, slots):
     """exception counts: 8 (= 16 transitions, the fewest the harness admits), 12, and for single-slot exceptions 24 (the minority
-    symbol then fills 24 slots: the spread clause is asserted for it); 64-slot records: 8 only (denser packings are not sparse)"""
-    return (8,) if slots < 128 else ((8, 12, 24) if length == 1 else (8, 12))
+    symbol then fills 24 slots: the spread clause is asserted for it); 64-slot records: 8 only (denser packings are not sparse);
+    256-slot records: 8 only (the low-density end: 8 single-slot exceptions = 3.1 % of the slots)"""
+    return (8,) if slots != 128 else ((8, 12, 24) if length == 1 else (8, 12))
 
 
 def par_name(maj, length, parity, shift, count, slots):
@@ -226,6 +228,11 @@ def par_representatives():
     """one pattern per (majority, exception length, parity, shift): 128 slots, the count at which the minority symbol fills 24
     slots (24 single-slot, 12 two-slot, 8 three-slot exceptions), so that every clause of the statement is asserted"""
     return [par_name(m, L, q, sh, 24 // L, 128) for m in PAR_MAJ for L in PAR_LEN for q in PAR_PARITY for sh in PAR_SHIFT]
+
+
+def par_sparsest():
+    """the low-density end of the family: 8 exceptions in 256 slots, one pattern per (majority, exception length, parity, shift)"""
+    return [par_name(m, L, q, sh, 8, 256) for m in PAR_MAJ for L in PAR_LEN for q in PAR_PARITY for sh in PAR_SHIFT]
 
 
 def par_parse(kind):
@@ -258,18 +265,24 @@ MIN_SLOTS = 24           # spread clause: asserted for a symbol with at least 24
 ISI_ISOLATED = 0.035     # an isolated single-slot pulse of the harness waveform stays <= 3.5 % of b-a short of its level (self-test)
 
 
-def parity_unasserted(used, sigma, d):
-    """clauses that are NOT asserted on a parity-structured record because too few slots stand behind the estimate.  GET_EYE
-    measures both levels inside ONE eye opening, i.e. on the slots of one parity; n = slots of the symbol in the opening that holds
-    fewest of them (opening_counts).  Spread: the existing 24-slot rule (scatter of a sample standard deviation ~ 1/sqrt(2(n-1)),
-    P(s < sigma/2) ~ 6e-3 for n = 12, 3e-5 for n = 24), applied to that opening.  Level: the mean over n slots scatters by
-    sigma/sqrt(n) (one independent noise sample per slot inside the 10 % window at sps = 8) on top of the <= 3.5 % that an isolated
-    pulse stays short of its level; the 8 % band is asserted when four standard errors fit into the remaining 4.5 %."""
+def parity_sampling(used, sigma, d):
+    """(spread clauses that are NOT asserted, {level field: allowance added to the 8 % band}) of a parity-structured record, from
+    the number of slots that stand behind an estimate.  GET_EYE measures both levels inside ONE eye opening, i.e. on the slots of
+    one parity; n = slots of the symbol in the opening that holds fewest of them (opening_counts).
+    Spread: the existing 24-slot rule (scatter of a sample standard deviation ~ 1/sqrt(2(n-1)); P(s < sigma/2) ~ 6e-3 for n = 12,
+    3e-5 for n = 24), applied to that opening.
+    Level: a mean over n slots scatters by sigma/sqrt(n) (one independent noise sample per slot inside the 10 % window at sps = 8),
+    on top of the <= 3.5 % that an isolated pulse stays short of its level.  When four standard errors fit into the remaining 4.5 %
+    the 8 % band of the statement is asserted as it stands; otherwise the band is widened by those four standard errors (a
+    necessary condition of the statement; a level that collapses onto the wrong rail is still reported); n = 0: not asserted."""
     n = opening_counts(used)
     rare = tuple(k for k, sym in (('s0', 0), ('s1', 1)) if n[sym] < MIN_SLOTS)
-    weak = tuple(k for k, sym in (('mu0', 0), ('mu1', 1))
-                 if n[sym] == 0 or 4.0 * sigma / np.sqrt(n[sym]) > (BAND_MU - ISI_ISOLATED) * d)
-    return rare, weak
+    widen = {}
+    for k, sym in (('mu0', 0), ('mu1', 1)):
+        se4 = 4.0 * sigma / np.sqrt(n[sym]) if n[sym] else np.inf
+        if se4 > (BAND_MU - ISI_ISOLATED) * d:
+            widen[k] = float(se4)
+    return rare, widen
 
 
 def _draw_parity(kind, n, rs):
@@ -486,8 +499,9 @@ def amp_class(pp):
 
 
 # ------------------------------------------------------------------ oracle: bands of the statement
-def check_bands(out, a, b, sigma, sps, tag, rare=(), weak=()):
-    """rare: spread clauses (s0 / s1) not asserted; weak: level clauses (mu0 / mu1) not asserted (parity_unasserted)"""
+def check_bands(out, a, b, sigma, sps, tag, rare=(), widen=None):
+    """rare: spread clauses (s0 / s1) not asserted; widen: {mu0 / mu1: sampling allowance added to the 8 % band} (parity_sampling)"""
+    widen = widen or {}
     d = b - a
     cls = amp_class(d)
     v = []
@@ -497,10 +511,11 @@ def check_bands(out, a, b, sigma, sps, tag, rare=(), weak=()):
     if bad:
         v.append((f'eye:not-finite:{cls}', f'{bad} not finite; {ctxt}'))
     ok = lambda *ks: all(val[k] is not None and np.isfinite(val[k]) for k in ks)
-    if ok('mu0') and 'mu0' not in weak and abs(val['mu0'] - a) > BAND_MU * d:
-        v.append((f'eye:mu0-band:{cls}', f'|mu0-a|={abs(val["mu0"]-a):g} > 8%(b-a)={BAND_MU*d:g}; {ctxt}'))
-    if ok('mu1') and 'mu1' not in weak and abs(val['mu1'] - b) > BAND_MU * d:
-        v.append((f'eye:mu1-band:{cls}', f'|mu1-b|={abs(val["mu1"]-b):g} > 8%(b-a)={BAND_MU*d:g}; {ctxt}'))
+    for k, lvl, nm in (('mu0', a, 'a'), ('mu1', b, 'b')):
+        tol = BAND_MU * d + widen.get(k, 0.0)
+        if ok(k) and abs(val[k] - lvl) > tol:
+            v.append((f'eye:{k}-band:{cls}', f'|{k}-{nm}|={abs(val[k]-lvl):g} > 8%(b-a)={BAND_MU*d:g}'
+                      + (f' + sampling allowance {widen[k]:g}' if k in widen else '') + f'; {ctxt}'))
     for s in ('s0', 's1'):
         # The spread of a symbol that occupies fewer than 24 slots is estimated from fewer than 24 independent samples: its
         # sample standard deviation scatters by ~1/sqrt(2(n-1)) > 15 % and leaves the sigma/2 band by chance (measured 0.0096
@@ -658,12 +673,12 @@ def eye_case(case):
     rare = tuple(s for s, n in (('s0', n0), ('s1', n1)) if n < 24)
     if quant and sigma < MIN_SIGMA_COUNTS:               # rounding to whole counts is not small against the noise: no spread clause
         rare = ('s0', 's1')
-    weak, pcls = (), ''
+    widen, pcls = {}, ''
     if pat.startswith('par-'):                           # parity-structured record: counts per eye opening, class in the keys
-        r2, weak = parity_unasserted(used, sigma, b - a)
+        r2, widen = parity_sampling(used, sigma, b - a)
         rare = tuple(sorted(set(rare) | set(r2)))
         pcls = par_class(pat)
-    viol += [(k + (',' + pcls if pcls else ''), m) for k, m in check_bands(base, a, b, sigma, sps, tag, rare, weak)]
+    viol += [(k + (',' + pcls if pcls else ''), m) for k, m in check_bands(base, a, b, sigma, sps, tag, rare, widen)]
     obs = [canon(base)]
     ncalls, nskip = 1, 0
     xmax, nmax = float(np.max(np.abs(x))), float(np.max(np.abs(noise)))
@@ -690,7 +705,8 @@ def eye_case(case):
         if lowprec or (struct and BAND_PP[0] * (1 - 1e-9) <= alpha * (b - a) <= BAND_PP[1] * (1 + 1e-9)):
             sfx = ','.join(p_ for p_ in (f'beta={beta_txt}' if struct else '', form) if p_)
             viol += [(k + ',' + sfx, m) for k, m in
-                     check_bands(out, alpha * a + beta, alpha * b + beta, alpha * sigma, sps, tag + f' [{sfx}]', rare, weak)]
+                     check_bands(out, alpha * a + beta, alpha * b + beta, alpha * sigma, sps, tag + f' [{sfx}]', rare,
+                                 {k_: alpha * w_ for k_, w_ in widen.items()})]
         obs.append(canon(out))
     # one message per key per case
     seen, vv = set(), []
@@ -790,7 +806,8 @@ def selftest_case(case):
     assert check_equiv(good, dict(good, s0=0.013), 1.0, 0.0, 1.0, 1.05, 'self', beta_txt='0V@0')[0][0] == 'equiv:levels:pp=1e+00V->1e+00V,beta=0V@0'
     # seeded wave 5: parity-structured patterns
     fam, reps = par_family(), par_representatives()
-    assert len(fam) == len(set(fam)) == 2 * 3 * 2 * (7 + 3) == 120 and len(reps) == 36 and set(reps) <= set(fam)
+    assert len(fam) == len(set(fam)) == 2 * 3 * 2 * (7 + 3 + 3) == 156 and len(reps) == 36 and set(reps) <= set(fam)
+    assert len(par_sparsest()) == 36 and set(par_sparsest()) <= set(fam) and not set(par_sparsest()) & set(reps)
     assert par_parse('par-m1x0n24') == ('m', 1, 'x', 0, 24) and par_class('par-s2e1n12:128') == 'par=s2/one-parity'
     assert par_class('par-m3x0n8:64') == 'par=m3/mixed'
     for seed_ in (0, 1):
@@ -820,13 +837,15 @@ def selftest_case(case):
     assert opening_counts(np.array([1, 1, 0, 1, 1, 1, 0, 1])) == {0: 2, 1: 2}         # spaces on even slots only
     assert opening_counts(np.array([0, 1, 1, 0, 0, 0, 1, 0, 0, 0])) == {0: 3, 1: 1}
     uu = np.ones(128, dtype=int); uu[0:48:2] = 0                                       # 24 isolated spaces on even slots
-    assert parity_unasserted(uu, 0.05, 1.0) == ((), ()) and parity_unasserted(uu[:96], 0.05, 1.0) == ((), ())
+    assert parity_sampling(uu, 0.05, 1.0) == ((), {}) and parity_sampling(uu[:96], 0.05, 1.0) == ((), {})
     uu[46] = 1                                                                         # 23 spaces
-    assert parity_unasserted(uu, 0.05, 1.0) == (('s0',), ()) and parity_unasserted(uu, 0.05, 1.0)[1] == ()
-    uu[8:48] = 1                                                                       # 4 spaces: level clause only for small noise
-    assert parity_unasserted(uu, 0.05, 1.0) == (('s0',), ('mu0',)) and parity_unasserted(uu, 0.02, 1.0) == (('s0',), ())
-    assert check_bands(dict(good, mu0=0.09), 0.0, 1.0, 0.01, 8, 'self', weak=('mu0',)) == []
-    assert check_bands(dict(good, mu1=0.9), 0.0, 1.0, 0.01, 8, 'self', weak=('mu0',))
+    assert parity_sampling(uu, 0.05, 1.0) == (('s0',), {})
+    uu[8:48] = 1                                                                       # 4 spaces: the exact band only for small noise
+    assert parity_sampling(uu, 0.05, 1.0) == (('s0',), {'mu0': 0.1}) and parity_sampling(uu, 0.02, 1.0) == (('s0',), {})
+    assert parity_sampling(np.array([1, 0] * 8), 0.01, 1.0)[1] == {'mu0': np.inf, 'mu1': np.inf}
+    assert check_bands(dict(good, mu0=0.17), 0.0, 1.0, 0.01, 8, 'self', widen={'mu0': 0.1}) == []
+    assert check_bands(dict(good, mu0=0.19), 0.0, 1.0, 0.01, 8, 'self', widen={'mu0': 0.1})
+    assert check_bands(dict(good, mu1=0.9), 0.0, 1.0, 0.01, 8, 'self', widen={'mu0': 0.1})
     iso = np.ones(32); iso[16] = 0
     for sps in SPS:                                      # isolated single-slot pulse of the harness waveform: depth, 50 % points
         w_ = waveform01(iso, sps)
@@ -986,12 +1005,15 @@ def enumerate_offsets(ctx):
 
 def enumerate_parity(ctx):
     """part eye-parity.  quick: one representative per (majority, exception length, parity, shift) - 128 slots, 24 minority slots -
-    at sps 8, level pair (0,1), KMeans seed 0 and the two ends of the noise range (0.5 % and 5 %), all 5 unit changes.
+    at sps 8, level pair (0,1), KMeans seed 0 and the two ends of the noise range (0.5 % and 5 %), all 5 unit changes; the sparsest
+    member of every (majority, exception length, parity, shift) - 256 slots, 8 exceptions - at the upper end of the noise range.
     thorough: every member of the family x sps x sigma x KMeans seed for the level pair (0,1) with all 5 unit changes, and every
     member with each other level pair on the simplest (sps, sigma, KMeans seed) vector with one pure scaling and one pure offset"""
     eq_all = tuple(range(N_UNIT))
     if ctx.quick:
-        return [(ctx.seed, p, SPS[0], LEVELS[0], g, 0, KSEEDS[0], eq_all) for g in (0, len(SIGMA_PCT) - 1) for p in par_representatives()]
+        glast = len(SIGMA_PCT) - 1
+        return [(ctx.seed, p, SPS[0], LEVELS[0], g, 0, KSEEDS[0], eq_all) for g in (0, glast) for p in par_representatives()] \
+            + [(ctx.seed, p, SPS[0], LEVELS[0], glast, 0, KSEEDS[0], eq_all) for p in par_sparsest()]
     fam = par_family()
     full = sorted(itertools.product(range(len(SPS)), range(len(SIGMA_PCT)), range(len(KSEEDS))), key=lambda v: (sum(1 for x in v if x), v))
     cases = [(ctx.seed, p, SPS[s_], LEVELS[0], g, 0, KSEEDS[k], eq_all) for (s_, g, k) in full for p in fam]
@@ -1046,11 +1068,12 @@ def run(ctx):
     ctx.rule('part eye-parity: parity-structured sparse patterns {mostly marks, mostly spaces} x {single-slot, two-slot, three-slot '
              'exceptions, never touching each other} x {every exception starts on an even slot, on an odd slot, alternately even / odd} '
              'x {as generated, shifted cyclically by one slot} x exception count {8, 12, and 24 for single-slot exceptions} x {128 '
-             f'slots; 64 slots with 8 exceptions}} = {len(par_family())} patterns (positions drawn from VERIF_SEED); same oracles as part eye; '
-             'level / spread clause of a symbol asserted when the eye opening (slot parity) with fewest slots of it holds >= 24 (spread) '
-             'resp. enough for 4 sigma/sqrt(n) <= 4.5 % of b-a (level). quick: one representative per (majority, length, parity, shift) '
-             f'= {len(par_representatives())} patterns (128 slots, 24 minority slots) at sps 8, (0,1), KMeans seed 0, sigma 0.5 % and 5 %; thorough: every '
-             'pattern x sps x sigma x KMeans seed for (0,1), every pattern x the other level pairs on the simplest vector')
+             f'slots; 64 and 256 slots with 8 exceptions}} = {len(par_family())} patterns (positions drawn from VERIF_SEED); same oracles as '
+             'part eye; with n = slots of a symbol in the eye opening (slot parity) that holds fewest of them: spread clause asserted for '
+             'n >= 24, level band widened by 4 sigma/sqrt(n) when that exceeds 4.5 % of b-a. quick: one representative per (majority, '
+             f'length, parity, shift) = {len(par_representatives())} patterns (128 slots, 24 minority slots) at sps 8, (0,1), KMeans seed 0, sigma 0.5 % and '
+             f'5 %, and the {len(par_sparsest())} sparsest patterns (256 slots, 8 exceptions) at sigma 5 %; thorough: every pattern x sps x sigma x KMeans '
+             'seed for (0,1), every pattern x the other level pairs on the simplest vector')
     ctx.assume('numpy.random.seed(k) fixes every draw of sklearn KMeans (random_state=None uses the global RNG); '
                'workers are single-threaded so KMeans is deterministic')
     ctx.assume('scipy.signal.bessel/sosfiltfilt (the mild band-limit of the harness waveform) and RandomState are correct')
